@@ -1,17 +1,17 @@
 #!/bin/bash
 # verify_seed.sh <Cxx> <k>: confirm a sub-agent's seeded change in its scratch worktree:
 # demo PASS on clean tree, FAIL with patch, test suite passes with patch. Leaves the worktree clean.
-P=$1; K=$2; WT=/tmp/wt/$P; D=$WT/out/$K; OUT=/tmp/seedverify/${P}_$K.txt
+P=$1; K=$2; WT=${WT_ROOT:-/tmp/wt}/$P; D=$WT/out/$K; OUT=${SV_DIR:-/tmp/seedverify}/${P}_$K.txt
 exec > $OUT 2>&1
 cd $WT || exit 2
 git checkout -q -- . ; git status --short | grep -v '^??' 
-run_demo() { (setsid timeout -s KILL 120 /venv/bin/python $D/demo.py > /tmp/seedverify/${P}_${K}_demo.out 2>&1 < /dev/null; echo "exit=$?" >> /tmp/seedverify/${P}_${K}_demo.out) ; tail -n 3 /tmp/seedverify/${P}_${K}_demo.out | tr '\n' ' ' | cut -c1-400; echo; }
+run_demo() { (setsid timeout -s KILL 120 /venv/bin/python $D/demo.py > ${SV_DIR:-/tmp/seedverify}/${P}_${K}_demo.out 2>&1 < /dev/null; echo "exit=$?" >> ${SV_DIR:-/tmp/seedverify}/${P}_${K}_demo.out) ; tail -n 3 ${SV_DIR:-/tmp/seedverify}/${P}_${K}_demo.out | tr '\n' ' ' | cut -c1-400; echo; }
 echo "== clean demo"; run_demo
 git apply --check $D/patch.diff && git apply $D/patch.diff || { echo "PATCH DOES NOT APPLY"; exit 1; }
 /venv/bin/python -m compileall -q billiard > /dev/null && echo "compiles"
 echo "== patched demo"; run_demo
 echo "== patched test suite"
-(setsid timeout -s KILL 400 /venv/bin/python -m pytest -q -p no:cacheprovider --timeout=300 t/unit > /tmp/seedverify/${P}_${K}_pytest.out 2>&1 < /dev/null); tail -n 1 /tmp/seedverify/${P}_${K}_pytest.out
+(setsid timeout -s KILL 400 /venv/bin/python -m pytest -q -p no:cacheprovider --timeout=300 t/unit > ${SV_DIR:-/tmp/seedverify}/${P}_${K}_pytest.out 2>&1 < /dev/null); tail -n 1 ${SV_DIR:-/tmp/seedverify}/${P}_${K}_pytest.out
 git checkout -q -- .
 echo "== applies to /repo HEAD:"; git -C /repo apply --check $D/patch.diff && echo yes || echo "NO (needs rebase)"
 echo DONE
